@@ -142,6 +142,19 @@ def run(chk: core.Check, tier: str, seed: int) -> None:
                   "$..*", "$[?@[0] == @[1]]", "$[?value(@.p) != $[0]]", "$[?count(@.*) == 3]"):
             recs.append(impl.rec_total(jp, q, doc))
             recs.append(impl.rec_total(jp, q, doc, paths=True))
+    # user-registered functions (classes without docstrings, a zero-parameter one among them) called with every number of arguments,
+    # compared and uncompared: whatever a diagnostic says about a function, building it must not fail
+    from .. import probes as _probes  # noqa: PLC0415
+    usigs = [("f0", [], "L"), ("f1", ["V"], "L"), ("g1", ["V"], "V"), ("n2", ["N", "V"], "N"), ("l2", ["L", "L"], "L")]
+    uenv = _probes.make_env(jp, usigs, [])
+    uextra = {"reg": _probes.reg_records(usigs)}
+    uargs = ["@.a", "1", "'x'", "@.*", "@.a == 1", "g1(@.a)", "f0()", "(@.a)", "!@.a"]
+    for name, params, _ret in usigs:
+        for n in range(0, 4):
+            for _ in range(3 if n else 1):
+                call = name + "(" + ", ".join(rng.choice(uargs) for _ in range(n)) + ")"
+                for q in (f"$[?{call}]", f"$[?{call} == 1]", f"$[?!{call} || @.b]", f"$[?count({call}) == 1]"):
+                    recs.append(impl.rec_compile(jp, q, env=uenv, extra=uextra))
     # environments configured with an integer range far beyond the host's machine words (2^70): indices, slice bounds and steps
     # around 2^31, 2^63, 2^64 - on arrays, objects, strings - evaluate or raise a JSONPathError like any other
     from .. import probes  # noqa: PLC0415
